@@ -449,6 +449,16 @@ fn emit_fn(out: &mut Value, req: &Value, sig: &Signature, block: &Block, impl_hd
     let mut extra_applied: Vec<Value> = vec![];
     if let Some(mp) = req["mut_params"].as_array() {
         for a in sig_owned.inputs.iter_mut() {
+            // N13b for the receiver (`mut_params=self`): `&self` of a handle whose interior-mutable sink is ghost state => `&mut self`
+            if let FnArg::Receiver(rc) = a {
+                if mp.iter().any(|m| m.as_str() == Some("self")) && rc.reference.is_some() && rc.mutability.is_none() {
+                    rc.mutability = Some(Default::default());
+                    if let Type::Reference(r) = &mut *rc.ty {
+                        r.mutability = Some(Default::default());
+                    }
+                    extra_applied.push(json!({"rule": "N13b-shared-sink-receiver-to-mut", "line": sig.ident.span().start().line}));
+                }
+            }
             if let FnArg::Typed(pt) = a {
                 let name = pt.pat.to_token_stream().to_string();
                 if mp.iter().any(|m| m.as_str() == Some(name.as_str())) {
